@@ -165,6 +165,41 @@ func Decode(frame []byte) (Frame, error) {
 	return f, nil
 }
 
+// DecodeOversized recognises a frame whose body is longer than the 1023 bytes the 10-bit length field can say and
+// whose encoder let the length spill into the three encryption bits above it (length field + encryption bits,
+// read as one 13-bit number, equal the actual body length). It returns the frame with the actual body.
+func DecodeOversized(frame []byte) (Frame, bool) {
+	var f Frame
+	p, err := Unescape(frame)
+	if err != nil || len(p) < 6 || Xor(p) != 0 {
+		return f, false
+	}
+	f.ID = binary.BigEndian.Uint16(p[0:2])
+	prop := binary.BigEndian.Uint16(p[2:4])
+	if prop&(1<<13) != 0 {
+		return f, false
+	}
+	f.Ver19 = prop&(1<<14) != 0
+	i, pl := 4, 6
+	if f.Ver19 {
+		f.VerByte = p[4]
+		i, pl = 5, 10
+	}
+	if len(p) < i+pl+2+1 {
+		return f, false
+	}
+	f.Phone = append([]byte(nil), p[i:i+pl]...)
+	i += pl
+	f.Serial = binary.BigEndian.Uint16(p[i : i+2])
+	i += 2
+	actual := len(p) - 1 - i
+	if actual <= 1023 || int(prop&0x1fff) != actual {
+		return f, false
+	}
+	f.Body = append([]byte(nil), p[i:len(p)-1]...)
+	return f, true
+}
+
 // SplitFrames cuts a byte stream that consists of complete frames into frames. ok=false if the stream is
 // not a sequence of delimiter-enclosed runs.
 func SplitFrames(stream []byte) (frames [][]byte, ok bool) {
@@ -196,6 +231,9 @@ func PhoneDigits(bcd []byte) string {
 	i := 0
 	for i < len(s) && s[i] == '0' {
 		i++
+	}
+	if i == len(s) {
+		return string(s) // a number made of zeros only keeps its digits: a terminal is never named ""
 	}
 	return string(s[i:])
 }
